@@ -538,6 +538,11 @@ func crossGenFiles() map[string]string {
 		"hh-vgen-hist-stackplus": mk("hh-vgen-hist-stackplus", "  /etc/host11 r,\n\n  #aa:stack zz-vgen-hist+plus\n"),
 		// a profile indented with tabs (its directive line too): what it is indented with is its own business
 		"aa-vgen-hist-tabbed": "abi <abi/4.0>,\n\ninclude <tunables/global>\n\n@{exec_path} = @{bin}/aa-vgen-hist-tabbed\nprofile aa-vgen-hist-tabbed @{exec_path} {\n\tinclude <abstractions/base>\n\n\t@{exec_path} mr,\n\n\t#aa:exec zz-vgen-hist-uselib\n\t#aa:dbus talk bus=session name=org.vgen.Tab label=tabpeer\n\n\tinclude if exists <local/aa-vgen-hist-tabbed>\n}\n",
+		// twins: two hosts with the same body, one sorting before the profile they stack and one after it; the stacked
+		// profile has a rule line that ends in blanks in front of a line another distribution's filter removes
+		"mm-vgen-hist-trail": mk("mm-vgen-hist-trail", "  /etc/mid.conf r,  \n  /etc/guard r, #aa:only whonix\n\n  /etc/after r,\n"),
+		"aa-vgen-hist-twin":  mk("aa-vgen-hist-twin", "  /etc/twin r,\n\n  #aa:stack mm-vgen-hist-trail\n"),
+		"zz-vgen-hist-twin":  mk("zz-vgen-hist-twin", "  /etc/twin r,\n\n  #aa:stack mm-vgen-hist-trail\n"),
 		// exec directives: default, explicit and two-target forms over the same targets
 		"aa-vgen-hist-exec1": mk("aa-vgen-hist-exec1", "  #aa:exec zz-vgen-hist-uselib\n"),
 		"bb-vgen-hist-exec2": mk("bb-vgen-hist-exec2", "  #aa:exec U zz-vgen-hist-uselib\n\n  /etc/between r,\n"),
